@@ -126,6 +126,11 @@ def select(groups, seeds, atomic, split, quick: bool, rng: random.Random) -> lis
         pool = [b for b in by_s.get(sub, []) if any(b["h"][i][0] == "parse" and b["h"][i + 1][0] == "parse" for i in range(len(b["h"]) - 1))]
         for b in rng.sample(pool, min(len(pool), 3 if quick else 20)):
             add("split", b["seed"], [["p" if k == "parse" else "e", s] for k, s in b["h"]])
+        if quick and any(x.startswith("thr-") for x in g):
+            # the quick tier runs the two-thread schedules for the group that was written for them
+            for k in range(6):
+                sd = seeds[k % len(seeds)]
+                add("threads", sd, None, [[["t", g[(k + j) % 2]] for j in range(6)], [["t", g[(k + j + 1) % 2]] for j in range(6)]])
         if not quick:
             for k in range(6):
                 sd = seeds[(gi + k) % len(seeds)]
